@@ -93,26 +93,26 @@ theorem trust_apply (hco : CodeOK π) {lvl : Level} {who : Nat → Prop} {fs : F
     · refine same ?_
       rw [hgq]; unfold getMove
       rw [if_neg h0, if_neg (by simp [pCode, pMeta]), if_neg (by simp [pCode, pTmpMeta])]
-  | unlinkE a p _ _ =>
-    rcases unlink_spec p fs with ⟨e, _⟩ | ⟨_, _, _, _, _, _, hgq⟩
+  | unlinkE a p g _ _ =>
+    rcases unlink_spec p _ fs with ⟨e, _⟩ | ⟨_, _, _, _, _, _, _, hgq⟩
     · exact same (by rw [e])
     · by_cases hp : p = pCode
       · subst hp; rw [hgq] at hg; unfold getUpd at hg; rw [if_neg h0, if_pos rfl] at hg; cases hg
       · exact upd p _ hp hgq
-  | unlinkC p _ _ =>
-    rcases unlink_spec p fs with ⟨e, _⟩ | ⟨_, _, _, _, _, _, hgq⟩
+  | unlinkC p g _ _ =>
+    rcases unlink_spec p _ fs with ⟨e, _⟩ | ⟨_, _, _, _, _, _, _, hgq⟩
     · exact same (by rw [e])
     · by_cases hp : p = pCode
       · subst hp; rw [hgq] at hg; unfold getUpd at hg; rw [if_neg h0, if_pos rfl] at hg; cases hg
       · exact upd p _ hp hgq
-  | rmdirE a p _ _ =>
-    rcases rmdir_spec p fs with ⟨e, _⟩ | ⟨_, _, _, _, _, _, _, hgq⟩
+  | rmdirE a p g _ _ =>
+    rcases rmdir_spec p _ fs with ⟨e, _⟩ | ⟨_, _, _, _, _, _, _, hgq⟩
     · exact same (by rw [e])
     · by_cases hp : p = pCode
       · subst hp; rw [hgq] at hg; unfold getUpd at hg; rw [if_neg h0, if_pos rfl] at hg; cases hg
       · exact upd p _ hp hgq
-  | rmdirC p _ _ =>
-    rcases rmdir_spec p fs with ⟨e, _⟩ | ⟨_, _, _, _, _, _, _, hgq⟩
+  | rmdirC p g _ _ =>
+    rcases rmdir_spec p _ fs with ⟨e, _⟩ | ⟨_, _, _, _, _, _, _, hgq⟩
     · exact same (by rw [e])
     · by_cases hp : p = pCode
       · subst hp; rw [hgq] at hg; unfold getUpd at hg; rw [if_neg h0, if_pos rfl] at hg; cases hg
